@@ -47,11 +47,11 @@ class GhostFS:
             else:
                 k = self.it.st.pick(3, 'fs:initial-state')
                 kind, content = [('absent', None), ('dir', None), ('file', None)][k]
-            n = [path, kind, content, kind, content]; self.nodes.append(n)      # [path, kind, content, initial kind, initial content]
+            n = [path, kind, content, kind, content, 0]; self.nodes.append(n)      # [path, kind, content, initial kind, initial content, modification counter]
         return n
     def set(self, path, kind, content=None):
         n = self.state(path)          # materialises the initial state of a path that was never looked at
-        n[1] = kind; n[2] = content
+        n[1] = kind; n[2] = content; n[5] += 1
     def snapshot(self): return [tuple(n) for n in self.nodes]
     def restore(self, snap): self.nodes = [list(n) for n in snap]
     def changed_since(self, snap):
@@ -164,6 +164,13 @@ def p_getattr(self, it_, name):
             fs.set(st_, na[1], na[2]); fs.set(s, 'absent'); fs.effect('replace', s, st_)
             return PM(st_)
         return PBuiltin(rename, name)
+    if name == 'stat':
+        def stat(it__, *a, **k):
+            n = fs.state(s)
+            if n[1] == 'absent': raise_os('FileNotFoundError', s)
+            o = PObj(PClass('stat_result', [V.OBJECT])); o.attrs.update({'st_mtime_ns': n[5], 'st_mtime': n[5], 'st_size': Opaque('st_size')})     # the modification time changes with every write
+            return o
+        return PBuiltin(stat, 'stat')
     if name == 'unlink':
         def unlink(it__, missing_ok=False):
             n = fs.state(s)
